@@ -234,6 +234,22 @@ def run_case(case):
                  "parallel": {"use_cache": bool(rng.random() < 0.5), "max_workers": int(rng.integers(1, 5))},
                  "output": {"format": "netcdf", "directory": "./out"}}
         buckets["config_with_run_options"] = 1
+    # what goes wrong in one configuration stays there: a configuration with impossible coordinates (latitude and longitude swapped for a
+    # site at 151 E) is built first in half of the cases - accepted or rejected, the good one that follows is geolocated as always
+    if rng.random() < 0.5:
+        try:
+            parse_config_dict({"domain": {"nx": 8, "ny": 8, "xmax": 80.0, "ymax": 80.0, "nz": 4, "ref_lat": -33.9, "ref_lon": 151.2},
+                               "towers": [{"name": "swapped", "lat": 151.213, "lon": -33.87, "z_m": 3.0}, {"name": "ok", "lat": -33.9, "lon": 151.21, "z_m": 3.0}],
+                               "met": {"ustar": 0.3}})
+            buckets["after_an_implausible_configuration:accepted"] = 1
+        except Exception:
+            buckets["after_an_implausible_configuration:rejected"] = 1
+    try:
+        parse_config_dict({"domain": {"nx": 8, "ny": 8, "xmax": 80.0, "ymax": 80.0, "nz": 4, "ref_lat": pts[0][0], "ref_lon": pts[0][1]},
+                           "towers": [{k_: v_ for k_, v_ in t_.items() if not k_.startswith("_")} for t_ in tw], "met": {"ustar": 0.3}})
+    except Exception as ex_:  # noqa
+        viol.append({"what": "valid_configuration_rejected", "exc": repr(ex_)[:300], "reference": (pts[0][0], pts[0][1])})
+        return {"evals": counters["points"], "nontrivial": True, "sig": [f"cfg|{case['idx']}"], "buckets": buckets, "resid": resid, "counters": counters, "violations": viol}
     cfg = parse_config_dict({
         "domain": {"nx": 8, "ny": 8, "xmax": 80.0, "ymax": 80.0, "nz": 4, "ref_lat": pts[0][0], "ref_lon": pts[0][1]},
         "towers": [{k_: v_ for k_, v_ in t_.items() if not k_.startswith("_")} for t_ in tw], "met": {"ustar": 0.3}, **other,
